@@ -555,7 +555,8 @@ Definition update_view (hint : list path) (s : st) (cwd prefix : path) (lk : lin
 (* ------------------------------------------------------------------ create_linked_view *)
 Record job := {
   j_dir : path;                 (* job.path, absolute, as components from the root *)
-  j_items : list str;           (* dotted keys and str values at every nesting level (9779bb0) *)
+  j_items : list str;           (* dotted keys and the spelling (strings as they are, other values through
+                                   str()) of every leaf value, lists included (9779bb0, f6f949e) *)
   j_pf : result str             (* path_function(job): the shared path function, an oracle *)
 }.
 
